@@ -22,19 +22,19 @@ CHECKS = {
    note="Hash iteration order is controlled by interposing getrandom (self-checked on every start); location is compared only when the canonical run places it inside the planted fault; faults made of two declarations may be reported at either one."),
  "C11": dict(cat="exploration", ref="§4 C11", technique="deterministic simulation: real server thread driven in capacity-0 lockstep by a simulated editor, with crash/restart, duplicated delivery and seeded hash order; per-step comparison with a fresh-server reference model and with the real cli::check",
    text="All notification histories of length <=3 (quick) / <=4 (thorough) over 2 URIs x 5 document classes x {didOpen, didChange} are enumerated, plus random histories up to length 40 with crash/restart, duplicate delivery, multi-change notifications and workspace folders. After every step: exactly one publishDiagnostics(uri, version); equality with a freshly started server holding the current contents; agreement of codes and start positions with cli::check on the same contents.",
-   note="The fresh server and cli::check are the same code base (differential against itself under a different history/entry point), so an error common to all three is not seen; ASCII documents only."),
+   note="The fresh server and cli::check are the same code base (differential against itself under a different history/entry point), so an error common to all three is not seen (e.g. the masked parse error of DESIGN §8 row 1 is invisible to C11); 'exactly one publishDiagnostics' counts the publishes for the notified document, other server output is not constrained; ASCII documents only."),
  "C12": dict(cat="fault_enumeration", ref="§4 C12", technique="deterministic simulation with protocol fault injection: seeded random message histories (unknown methods, client responses, empty/multiple content changes, odd URIs, duplicated delivery) against the real server thread in lockstep; protocol monitor over the recorded history",
    text="Every protocol fault kind of the quantifier is injected (each with a fired-counter in the evidence, swarm-enabled per run) into histories of up to 60 messages; the monitor checks exactly-once responses with the right id, no response to notifications or client responses, liveness after every step, a served recovery probe after the last fault, and Ok(()) (exit status 0) after shutdown + exit.",
    note="The stdio framing threads are replaced by in-memory capacity-0 channels; lsp-server's real-time 30 s exit timeout is never allowed to elapse; malformed params are outside the quantifier."),
  "C13": dict(cat="fault_enumeration", ref="§4 C13", technique="deterministic simulation with storage fault injection: real cli::check/echo/tokenize on a tmpfs disk where a seeded storage actor vanishes, replaces, truncates or rewrites paths at announced fs-points; agreement oracles over hook observations",
    text="Every fault kind (missing path, dangling symlink, symlink loop, empty directory, sub-directory, vanish / file<->dir swap / rewrite / truncate at each of the five fs-points) is injected into generated file sets given as files, directory or mixture in scheduler-chosen order; the run's Result, the OK probe and the diagnostics handed to the renderer must agree, directory == file list, echo/tokenize == per-file truth.",
-   note="Exit status is the Result that main returns; 'printed' is observed at the call that hands diagnostics to codespan plus codespan's own success, not by parsing the terminal output (a sampled cross-check runs the shipped binary). EACCES, mid-read EIO and per-entry readdir errors cannot be produced as root on tmpfs."),
+   note="Exit status is the Result that main returns (a sampled cross-check of 150 fault-free and static-fault executions runs the shipped binary and compares real exit status, OK line and error[P…] codes); what is printed is read back from the captured stdout/stderr of every simulated process. A directory and its file list must agree on the verdict always and on the codes for valid and single-fault worlds. EACCES, mid-read EIO and per-entry readdir errors cannot be produced as root on tmpfs."),
  "C14": dict(cat="fault_enumeration", ref="§4 C14", technique="deterministic simulation with storage fault injection: a storage actor chooses the stored encoding per file and corrupts stored bytes (bit flips, truncation inside multi-byte sequences/BOM, garbage, concurrent rewrite); twin-world and structural oracles",
    text="Twin worlds (same text, independently drawn encodings out of UTF-8, UTF-8+BOM, UTF-16LE/BE+BOM, Windows-1252) must give the same verdict, codes and line/column positions through cli::check and the Project API; after any storage fault the run returns a Result with every label inside the decoded text on a char boundary; all 256 byte values at four positions are swept completely.",
    note="Weakest fit of the technique: the encoding equivalence is input-space sampling carried by the storage actor; claimed because the stored representation and its corruption are environment choices. The ambiguous case where Windows-1252 bytes happen to be valid UTF-8 is skipped."),
  "C15": dict(cat="exploration", ref="§4 C15", technique="deterministic simulation: semanticTokens requests interleaved in seeded edit histories (with crash/restart) against the real server thread in lockstep; responses decoded and compared with the lexemes of the current text and with a fresh server",
    text="Random edit histories with interleaved semanticTokens/full requests over generated documents with the trivia kinds of the quantifier; every response is decoded under the relative encoding and must be a strictly increasing, non-overlapping cover of lexemes of the current text with the right length and (for comments, identifiers, punctuation operators) class; null iff the current text has a lexical error; equal to a fresh server's answer.",
-   note="Lexeme boundaries come from ironplc_parser::tokenize_program (trusted here; its correctness is C05, not claimed); ASCII documents; multi-line lexeme lengths are not compared."),
+   note="Lexeme boundaries and token kinds come from ironplc_parser::tokenize_program (trusted here; its correctness is C05, not claimed) except for one independent clause (text ending in VT / bare CR / NBSP / U+3000 must yield null); class clauses are implementation-neutral (comments, punctuation operators, definite keywords; identifiers may get any entry that is not another lexeme class; the word-operator family shares one entry); completeness is per token kind; ASCII documents; multi-line lexeme lengths are not compared."),
 }
 
 def main():
